@@ -209,6 +209,12 @@ struct envchk_pol
 };
 template <class X>
 using envchk = fwd_snd<envchk_pol, X>;
+struct nop_pol
+{
+    void value(V const&) const {}
+    void error(std::exception_ptr const&) const {}
+    void stopped() const {}
+};
 struct sprobe_pol
 {
     void value(V const& v) const
@@ -811,6 +817,24 @@ struct PB<sJ>
 PB_UNARY(sThen, "then", true, mk_then(std::move(x), &n))
 PB_UNARY(sLv, "lv", PB<sL>::match(n.kids[1]), mk_lv<PB<sL>>(std::move(x), &n))
 PB_UNARY(sLe, "le", PB<sL>::match(n.kids[1]), mk_le<PB<sL>>(std::move(x), &n))
+// let_error directly over split: pinned pika does not compile this (split declares the error types
+// exception_ptr AND exception_ptr const&, let_error decays both into one variant with a duplicate
+// alternative; repaired on hooks-C03s by a `fix:` commit).  So that the harness builds on either tree
+// a transparent forwarder that declares the single error type exception_ptr sits between them; it
+// forwards split's `exception_ptr const&` as the same reference.
+template <class S>
+struct PB<sLe<sSp<S>>>
+{
+    static bool match(Node const& n)
+    {
+        return n.op == "le" && PB<sL>::match(n.kids[1]) && PB<sSp<S>>::match(n.kids[0]);
+    }
+    static auto build(Node const& n, senv const& env)
+    {
+        auto x = PB<sSp<S>>::build(n.kids[0], env);
+        return mk_le<PB<sL>>(fwd_snd<nop_pol, decltype(x)>{std::move(x), {}}, &n);
+    }
+};
 PB_UNARY(sCo, "co", n.s != 'p', mk_co(std::move(x), inline_scheduler{n.s, n.scode}))
 PB_UNARY(sUn, "un", true, mk_un(std::move(x)))
 PB_UNARY(sDv, "dv", true, mk_dv(std::move(x)))
@@ -830,8 +854,13 @@ struct PB<sWv<S>>
     }
     static auto build(Node const& n, senv const& env)
     {
-        std::vector<pb_type<S>> c;
-        for (auto const& k : n.kids) c.push_back(PB<S>::build(k, env));
+        // non-stdexec build: every pika adaptor declares sends_done = false although it forwards
+        // set_stopped, and when_all_vector then reaches PIKA_UNREACHABLE when such a child is stopped
+        // (`wv(dos(stop()))` aborts; finding 2 of notes/C03.md, an assumption of the E0 tie).  As in the erased
+        // builder a transparent forwarder with sends_done = true sits below when_all_vector.
+        using child_t = fwd_snd<nop_pol, pb_type<S>>;
+        std::vector<child_t> c;
+        for (auto const& k : n.kids) c.push_back(child_t{PB<S>::build(k, env), {}});
         return mk_wv(std::move(c));
     }
 };
@@ -921,8 +950,15 @@ using two_over_storing = typename tl_join<typename map_tl<sDos, typename over_al
 using storing2 = tl<sWa<sThen<sL>, sL>, sWa<sL, sDos<sL>>, sWa<sCo<sL>, sLe<sL>>, sWa<sSp<sL>, sEs<sL>>,
     sWa<sWa<sL, sL>, sL>, sWv<sThen<sL>>, sWv<sDos<sL>>, sSp<sWa<sL, sL>>, sEs<sWa<sL, sL>>, sSp<sSp<sL>>,
     sSp<sThen<sL>>, sEs<sThen<sL>>, sSp<sDos<sL>>, sEs<sDos<sL>>, sSp<sLe<sL>>, sEs<sCo<sL>>>;
+#ifdef SND_PURE_SMALL
+// the ASan build of the pure tier (compile time): without U(U(L)) and the mixed storing shapes; the check
+// re-runs what this binary does not recognise on the REF tier's ASan build
+using pure_catalogue = typename tl_join<tl<sL, sJ>, storing, unary_over_leaf, unary_over_just, unary_over_storing,
+    two_over_storing>::type;
+#else
 using pure_catalogue = typename tl_join<tl<sL, sJ>, storing, unary_over_leaf, unary_over_just, unary_over_storing,
     unary2, two_over_storing, storing2>::type;
+#endif
 
 template <class L>
 struct tl_size;
